@@ -1,5 +1,6 @@
 import MimeModel.Model.Detect
 import MimeModel.Model.MediaType
+import MimeModel.Spec.Utf8
 /-
   Executable specification oracles used by the driver on the *implementation's*
   results (independent of the hand model).  Each returns "" when the clause holds
@@ -61,6 +62,34 @@ def zipSpec (chain : List (Bytes × Bytes)) (names : List Bytes) : String :=
           && first != ofString "mimetype" && leaf != zip then "SPEC C19:no-marker-not-plain-zip"
   else ""
 
-def charsetSpec (_raw : Bytes) (_goRes : String) : String := ""
+def asciiTextByte (b : Nat) : Bool :=
+  b == 7 || b == 8 || b == 9 || b == 10 || b == 11 || b == 12 || b == 13 || b == 27 || (0x20 ≤ b && b ≤ 0x7E)
+
+def bomCharset (x : Bytes) : Option String :=
+  if hasPrefix x [0xEF, 0xBB, 0xBF] then some "utf-8"
+  else if hasPrefix x [0x00, 0x00, 0xFE, 0xFF] then some "utf-32be"
+  else if hasPrefix x [0xFF, 0xFE, 0x00, 0x00] then some "utf-32le"
+  else if hasPrefix x [0xFE, 0xFF] then some "utf-16be"
+  else if hasPrefix x [0xFF, 0xFE] then some "utf-16le"
+  else none
+
+/-- C11 oracle on the implementation's `FromPlain` result (`goRes` = hex of the label) -/
+def charsetSpec (x : Bytes) (goRes : String) : String :=
+  let cs := match unhex goRes with
+    | some b => String.ofList (b.map (fun n => Char.ofNat n))
+    | none => "?"
+  if x.isEmpty then "" else
+  match bomCharset x with
+  | some c => if cs == c then "" else "SPEC C11:bom-charset-not-reported"
+  | none =>
+    let vc := U.validUpToCut x
+    let c1 := x.any (fun b => 0x80 ≤ b && b ≤ 0x9F)
+    if cs == "utf-8" && vc.isNone then "SPEC C11:utf-8-reported-for-invalid-utf-8"
+    else if cs != "utf-8" && (match vc with
+        | some p => x.all asciiTextByte || U.hasNonAscii p
+        | none => false) then "SPEC C11:utf-8-not-reported-for-utf-8-text"
+    else if cs == "windows-1252" && !c1 then "SPEC C11:windows-1252-without-c1-byte"
+    else if cs == "iso-8859-1" && c1 then "SPEC C11:iso-8859-1-with-c1-byte"
+    else ""
 
 end Mime.Spec
